@@ -340,6 +340,9 @@ def profile_for(pid, tier):
         P["keep_index"] = 0.5
     elif pid == "C10":
         P["ops"].update({"project": 8})
+        P["oob_index"] = 0.25
+        G["kinds"].update({"switch": 6, "or_else": 2})
+        G["root_kinds"] = dict(G["kinds"], switch=10, static=8)
         P["sel_bias"] = {"term": 0.25, "or": 0.2, "and": 0.25, "not": 0.3}
         P["sel_depth"] = 3
     elif pid == "C34":
@@ -379,6 +382,11 @@ def profile_for(pid, tier):
         G["root_kinds"] = {"static": 6, "dimap": 1, "partial": 1, "closure": 1, "vmap": 1, "scan": 1, "mix": 2}
         G["max_stmts"] = 4
         G["choice_switch"] = 0.25
+        G["chain"] = 0.6
+        G["chain3"] = 0.5
+        P["single_sub"] = 0.5
+        G["nest"] = 0.6
+        G["empty_static"] = 0.15
         P["rejuv"] = 0.25
         P["index_static"] = 0.4
         P["dep_switch_bias"] = 0.6
@@ -598,7 +606,21 @@ def gen_session(session_seed, pid, tier, profile=None):
                         fed = _fed_switches(node, sr)
                         if not (fed and rng.random() < db):
                             fed = {}
+                    only = None
+                    ss = P.get("single_sub", 0.0)
+                    if ss > 0 and not fed and sr["stmts"] and rng.random() < ss:
+                        # one addressed call site (early ones preferred): everything
+                        # downstream is an implicit EmptyRequest with changed arguments
+                        only = min(rng.randrange(len(sr["stmts"])), rng.randrange(len(sr["stmts"])))
                     for j, s in enumerate(sr["stmts"]):
+                        if only is not None:
+                            if j != only:
+                                continue
+                            if s["callee"]["k"] == "dist" or not accepts_regenerate(s["callee"]) or rng.random() < 0.7:
+                                subs.append({"addr": s["addr"], "kind": "update", "constraint": gen_constraint(rng, s["callee"], "full")})
+                            else:
+                                subs.append({"addr": s["addr"], "kind": "regenerate", "sel": ["all"]})
+                            continue
                         if j in fed:
                             continue  # the switch itself stays unaddressed (implicit EmptyRequest)
                         if j in fed.values():
